@@ -27,9 +27,16 @@ from . import c14
 
 
 class Sess:
-    def __init__(self, noise: bool = False, keepalive: float | None = None) -> None:
+    def __init__(self, noise: bool = False, keepalive: float | None = None, early_client: bool = False) -> None:
+        from .. import world as _world
+
         kw: dict[str, Any] = {} if keepalive is None else {"keepalive": keepalive}
-        w = ConnWorld(client=True, login=True, noise=noise, **kw)
+        # early_client: the APIClient object is created before the running loop exists (module-level client, then asyncio.run)
+        _world.FOREIGN_LOOP_CLIENT[0] = early_client
+        try:
+            w = ConnWorld(client=True, login=True, noise=noise, **kw)
+        finally:
+            _world.FOREIGN_LOOP_CLIENT[0] = False
         w.connect_fully()
         self.keepalive = keepalive
         self.w = w
@@ -544,15 +551,17 @@ def run_voice(args: tuple[str, str]) -> dict[str, Any]:
         return pb.VoiceAssistantAnnounceFinished(success=bool(i % 2))
 
     seqs = [p for n in range(1, depth + 1) for p in itertools.product(VA_ATOMS, repeat=n)]
-    for with_audio in (True, False):
-        for with_ann in (True, False):
+    for with_audio, with_ann, early in ((True, True, False), (True, False, False), (False, True, False), (False, False, False), (True, True, True)):
+        if True:
             for seq in seqs:
                 if tier == "quick" and len(seq) == depth and (not with_audio or not with_ann) and seq[0] != "start":
                     continue
+                if early and len(seq) > 2:
+                    continue  # the client object was created before its loop existed: all sequences of one and two messages
                 positions: list[Any] = [None] + list(range(len(seq) + 1))
                 for pos in positions:
                     for one_chunk in ((True, False) if pos is None else (False,)):
-                        s = Sess()
+                        s = Sess(early_client=early)
                         try:
                             calls: list[Any] = []
                             gates: list[Any] = []
